@@ -47,7 +47,8 @@ class Check:
             'strip_directory), install_emptydir, install_symlink; names with spaces and non-ASCII; prefix, install_umask incl. preserve; '
             '+ a history of install / reinstall / --only-changed / --dry-run / --tags / --skip-subprojects / uninstall steps with '
             'simulator-chosen ambient umask, mtime skew (source older/equal/newer than the installed copy), pre-populated DESTDIR and '
-            'DESTDIR given through the environment or --destdir (absolute or relative). Non-trivial: >=2 steps, or DESTDIR pre-populated, '
+            'DESTDIR given through the environment or --destdir (absolute or relative), and an obstacle fault (a directory of the user where a '
+            'file is to go: the install aborts half-way, what it created must be logged and removable). Non-trivial: >=2 steps, or DESTDIR pre-populated, '
             'or an mtime skew decided --only-changed. Distinct by hash of (op sequence, rule kinds present).')
     interleaving_measure = 'hash of the op sequence with options'
     engine_desc = {
@@ -175,9 +176,12 @@ class Check:
         prepop = rng.random() < 0.3
         n = rng.choice([1, 2, 2, 3, 4, 5])
         for k in range(n):
-            op = rng.choice(['install', 'install', 'install', 'only-changed', 'dry-run', 'uninstall', 'uninstall', 'tags', 'skip-sub', 'skew', 'userfile'])
+            op = rng.choice(['install', 'install', 'install', 'only-changed', 'dry-run', 'uninstall', 'uninstall', 'tags', 'skip-sub', 'skew', 'userfile', 'blocked'])
             st: T.Dict[str, T.Any] = {'op': 'install'}
-            if op == 'only-changed':
+            if op == 'blocked':
+                # fault: something of the user's (a directory) sits where a file is to go, the install aborts half-way
+                st['block'] = rng.randrange(1000)
+            elif op == 'only-changed':
                 st['only_changed'] = True
             elif op == 'dry-run':
                 st['dry_run'] = True
@@ -194,6 +198,8 @@ class Check:
             if st['op'] == 'install':
                 st['quiet'] = rng.random() < 0.2
             steps.append(st)
+            if st.get('block') is not None and rng.random() < 0.8:
+                steps.append({'op': 'uninstall'})
             if st['op'] == 'skew' and rng.random() < 0.7:
                 steps.append({'op': 'install', 'only_changed': True})
         return {'kind': 'c11', 'spec': spec, 'have_sub': have_sub, 'steps': steps, 'ambient_umask': ambient, 'destmode': destmode, 'prepopulate': prepop}
@@ -425,7 +431,26 @@ class Check:
                     argv.append('--dry-run')
                 if st.get('quiet'):
                     argv.append('--quiet')
-            kinds.append(st['op'] + ''.join(f'+{k}' for k in ('tags', 'skip_subprojects', 'only_changed', 'dry_run') if st.get(k)))
+            blocker: T.Optional[str] = None
+            blocker_made: T.List[str] = []
+            if st['op'] == 'install' and st.get('block') is not None:
+                cands = sorted(p for p, it in IR.expected_tree(spec, destdir, {}, ambient).items.items() if it[0] == 'file' and not os.path.lexists(p))
+                cands = [p for p in cands if not any(os.path.lexists(a) and not os.path.isdir(a) for a in self.ancestors(p, destdir))]
+                if cands:
+                    blocker = cands[st['block'] % len(cands)]
+                    q_ = blocker
+                    while q_ != destdir and not os.path.lexists(q_):
+                        blocker_made.append(q_)
+                        q_ = os.path.dirname(q_)
+                    os.makedirs(blocker)
+                    for q_ in blocker_made:
+                        os.chmod(q_, 0o755)
+                    snap = IR.snapshot(destdir)
+                    for q_ in blocker_made:
+                        pre[q_] = snap[q_]
+                    before = snap
+                    add(faults, 'destination-blocked-install-aborts')
+            kinds.append(st['op'] + ''.join(f'+{k}' for k in ('tags', 'skip_subprojects', 'only_changed', 'dry_run') if st.get(k)) + ('+blocked' if blocker else ''))
             if st['op'] == 'uninstall' and not os.path.exists(logf):
                 continue
             log_before = open(logf).read() if os.path.exists(logf) else None
@@ -440,7 +465,7 @@ class Check:
             out = rr['out']
             if 'Traceback (most recent call last)' in out:
                 return R.violation('sut-exception', f'step {si} {argv}: traceback printed: {out[-2000:]}', 'sut-exception:printed', **base)
-            if v['rc'] != 0:
+            if v['rc'] != 0 and blocker is None:
                 return R.violation('install-failed', f'step {si} `meson {" ".join(argv)}` exited {v["rc"]}: {out[-1200:]}', f'install-failed:{kinds[-1]}', **base)
             # ---- (a) containment, on every recorded mutation
             for ev in v['events']:
@@ -462,6 +487,31 @@ class Check:
             if IR.snapshot(sd) != outside_before:
                 return R.violation('escaped-destdir', f'step {si}: the source tree was modified by `meson {" ".join(argv[:2])}`', 'escaped-destdir:source-tree', **base)
             after = IR.snapshot(destdir)
+            if blocker is not None and v['rc'] != 0:
+                # the install stopped at the blocked destination: whatever it did create is on record, nothing of the user's changed
+                nontrivial = True
+                log_now = open(logf).read() if os.path.exists(logf) else ''
+                logged_now = {l.rstrip('\n') for l in log_now.splitlines() if l.strip() and not l.startswith('#')}
+                unlogged = sorted(p for p in after if p not in before and p not in logged_now)
+                if unlogged:
+                    return R.violation('created-not-logged', f'step {si}: the install aborted at the blocked destination {os.path.relpath(blocker, destdir)}; it had created paths '
+                                       f'the install log does not name: {[os.path.relpath(p, destdir) for p in unlogged[:8]]}',
+                                       f'created-not-logged:aborted:{after[unlogged[0]][0]}', **base)
+                for p, it in before.items():
+                    if p in pre and it[0] != 'dir' and after.get(p) != it:
+                        return R.violation('install-damaged-preexisting', f'step {si}: pre-existing {p} changed by the aborted install', 'install-damaged-preexisting', **base)
+                # the user clears the obstacle away again (directories of theirs that the install has filled stay theirs)
+                for q_ in blocker_made:
+                    if not os.listdir(q_):
+                        os.rmdir(q_)
+                        pre.pop(q_, None)
+                    else:
+                        pre[q_] = IR.snapshot(os.path.dirname(q_))[q_]
+                fresh_ = not any(p not in pre for p in before)
+                clean_full_install = fresh_
+                last_created_logged = logged_now
+                add(probes, 'install-aborted-at-blocked-destination')
+                continue
             if st.get('dry_run'):
                 if after != before:
                     return R.violation('dry-run-wrote', f'step {si}: DESTDIR changed under --dry-run', 'dry-run-wrote:tree', **base)
@@ -582,6 +632,15 @@ class Check:
                     distinct_key=prng.short([kinds, sorted({r['kind'] for r in spec['rules']}), sc.get('destmode'), spec['umask']]),
                     interleavings=[prng.short(kinds)], summary={'ops': kinds, 'rules': [r['kind'] for r in spec['rules']]},
                     steps=len(sc['steps']), trace_digest=prng.digest(json.loads(json.dumps([kinds, trace], default=str).replace(root, '<ROOT>'))))
+
+    @staticmethod
+    def ancestors(p: str, stop: str) -> T.List[str]:
+        out = []
+        p = os.path.dirname(p)
+        while p != stop and len(p) > len(stop):
+            out.append(p)
+            p = os.path.dirname(p)
+        return out
 
     @staticmethod
     def explicit_dirs(spec: T.Dict[str, T.Any], destdir: str) -> T.Set[str]:
